@@ -249,7 +249,9 @@ func (n *node) RouteSendEvent(from gen.PID, token gen.Ref, options gen.MessageOp
 		}
 
 		if event.last != nil {
+			event.lastLock.Lock()
 			event.last.Push(message)
+			event.lastLock.Unlock()
 		}
 	}
 
@@ -802,6 +804,7 @@ func (n *node) RouteLinkEvent(pid gen.PID, target gen.Event) ([]gen.MessageEvent
 
 		if event.last != nil {
 			// load last N events
+			event.lastLock.Lock()
 			item := event.last.Item()
 			for {
 				if item == nil {
@@ -811,6 +814,7 @@ func (n *node) RouteLinkEvent(pid gen.PID, target gen.Event) ([]gen.MessageEvent
 				lastEventMessages = append(lastEventMessages, v)
 				item = item.Next()
 			}
+			event.lastLock.Unlock()
 		}
 
 		c := atomic.AddInt32(&event.consumers, 1)
@@ -1147,6 +1151,7 @@ func (n *node) RouteMonitorEvent(pid gen.PID, target gen.Event) ([]gen.MessageEv
 
 		if event.last != nil {
 			// load last N events
+			event.lastLock.Lock()
 			item := event.last.Item()
 			for {
 				if item == nil {
@@ -1156,6 +1161,7 @@ func (n *node) RouteMonitorEvent(pid gen.PID, target gen.Event) ([]gen.MessageEv
 				lastEventMessages = append(lastEventMessages, v)
 				item = item.Next()
 			}
+			event.lastLock.Unlock()
 		}
 
 		c := atomic.AddInt32(&event.consumers, 1)
